@@ -135,7 +135,7 @@ def part_a(ctx, exprs, meta):
         (('inner', [((('int', 0), ('text', 'PRESENT')), ('single', [('int', 4)])),
                     ((('int', 1), ('text', 'ABSENT')), ('single', [('int', 5)]))]), 'int'),
     ]
-    n = ctx.n(260, 2600)
+    n = ctx.n(200, 2600)
     trees = list(fixed)
     for i in range(n):
         kind = kinds[i % len(kinds)] if i % 7 else rng.choice(kinds)
@@ -391,7 +391,7 @@ def part_c(ctx, exprs, meta):
             exprs.append('(is_unmodelled %s || outcome_eqb %s %s)' % (model, model, rc))
         meta.append(('model and implementation disagree on %s' % what, case, None))
 
-    n_types = ctx.n(36, 280)
+    n_types = ctx.n(30, 280)
     for t in range(n_types):
         kind = ['int', 'int', 'bytes', 'text', 'oid', 'bits'][t % 6]
         for attempt in range(12):       # prefer types that admit at least one of their boundary candidates
@@ -702,6 +702,15 @@ def part_d(ctx, exprs, meta):
             exprs.append('verdict_eqb (ceval (CAnd [%s]) None %s) %s' % (st.to_coq(tree), st.cval_coq(x),
                                                                           'Pass' if outs[0] == 'ok' else 'Fail'))
             meta.append(('model and encoder disagree on a WITH COMPONENTS constraint', case, None))
+            if not again.startswith('crash'):
+                given = dict((k[1], val) for k, val in x[1])
+                rec = '[%s]' % ';'.join('(%s, %s)' % (st.sval_coq(('text', k)),
+                                                     '(Assigned %s)' % st.sval_coq(given[k]) if k in given else 'Unset')
+                                        for k in FIELDS_ALL)
+                exprs.append('verdict_eqb (encoder_admits (spec_of [%s]) (read_all %s)) %s' % (
+                    st.to_coq(tree), rec, 'Pass' if again == 'ok' else 'Fail'))
+                meta.append(('model and encoder disagree on a record whose components have been read',
+                             dict(case, after_read=again), None))
     ctx.sample({'part': 'd', 'encoders': [n for n, _ in encs]})
 
 
@@ -728,26 +737,103 @@ def run(ctx):
 
 def replay(data):
     import pprint
-    case = data.get('case', data)
+    case = _retuple(data.get('case', data))
+    print('what:', data.get('what'))
     pprint.pprint(case)
     if 'coq' in case:
-        print('model:', core.coq_show(IMPORTS, case['coq']))
+        print('model says (false = disagrees with the recorded implementation outcome):',
+              core.coq_show(IMPORTS, case['coq']))
     part = case.get('part')
     if part == 'a':
-        c, idx, x = _retuple(case['tree']), _retuple(case.get('idx')), _retuple(case['value'])
+        c, idx, x = case['tree'], case.get('idx'), case['value']
         print('implementation now:', st.impl_verdict(st.to_pyasn1(c), x, idx, case.get('wrapped', False)))
         print('set theory: member =', st.member(c, idx, x), ' wf =', st.wf(c), ' typed =', st.typed(c, idx, x))
         print('model:', core.coq_show(IMPORTS, 'ceval %s %s %s' % (st.to_coq(c), st.idx_coq(idx), st.cval_coq(x))))
     elif part == 'b':
-        kind, ops0, steps = case['kind'], _retuple(case['ops0']), _retuple(case['steps'])
+        kind, ops0, steps = case['kind'], case['ops0'], case['steps']
         Ts, cons = build_chain(kind, ops0, steps)
+        print('isSuperTypeOf matrix (row i = ancestor, column j), implementation now:')
         for i in range(len(Ts)):
-            print(i, [bool(Ts[i].isSuperTypeOf(Ts[j])) for j in range(len(Ts))], Ts[i].subtypeSpec)
+            print('  ', i, [bool(Ts[i].isSuperTypeOf(Ts[j])) for j in range(len(Ts))], Ts[i].subtypeSpec)
+        chain_coq = '(derive_chain %s [%s])' % (stype_coq(kind, ops0), ';'.join(
+            '(%s,%s)' % (tagging_coq(tg), 'None' if new is None else '(Some %s)' % st.to_coq(new)) for tg, new in steps))
+        print('model:', core.coq_show(IMPORTS, 'let ts := %s in map (fun a => map (type_is_super true true a) ts) ts' % chain_coq))
+        if 'value' in case:
+            x = case['value']
+            for i, T in enumerate(Ts):
+                r, obj = construct_outcome(T, x, kind)
+                print('   construct T%d(%r): %r; set theory member=%s' % (
+                    i, x, r, st.member(('and', cons[i]), None, x) if cons[i] else True))
+            if 'j' in case and 'i' in case:
+                r, obj = construct_outcome(Ts[case['j']], x, kind)
+                if obj is not None:
+                    for how in ('seqof', 'seq'):
+                        try:
+                            if how == 'seqof':
+                                univ.SequenceOf(componentType=Ts[case['i']]).setComponentByPosition(0, obj)
+                            else:
+                                univ.Sequence(componentType=namedtype.NamedTypes(
+                                    namedtype.NamedType('f', Ts[case['i']]))).setComponentByName('f', obj)
+                            print('   assignment (%s): ok' % how)
+                        except Exception as e:
+                            print('   assignment (%s): %s %s' % (how, type(e).__name__, str(e)[:120]))
+    elif part == 'c' and case.get('op') == 'real':
+        print('see harness/props/c14.py part_c REAL probes; now:')
+        for spec, val in ((C.ValueRangeConstraint(0, 10), 5.0), (C.SingleValueConstraint(1.5, 2.5), 1.5)):
+            res, exc = run_op(lambda: univ.Real(val, subtypeSpec=C.ConstraintsIntersection(spec)))
+            print('   Real(%r) under %r: %s' % (val, spec, 'ok' if exc is None else type(exc).__name__ + ': ' + str(exc)[:100]))
+    elif part == 'c':
+        kind, ops, v = case['kind'], case['ops'], case['value']
+        T = make_type(kind, ops)
+        r, obj = construct_outcome(T, v, kind)
+        print('constructor now: %r; set theory member=%s' % (r, st.member(('and', ops), None, v)))
+        print('model:', core.coq_show(IMPORTS, 'op_clone %s %s' % (stype_coq(kind, ops), st.sval_coq(v))))
+        if case.get('op') == 'decode':
+            res, exc = run_op(lambda: ber_dec.decode(bytes.fromhex(case['substrate']), asn1Spec=T)[0])
+            print('decode now:', repr(res) if exc is None else type(exc).__name__ + ': ' + str(exc)[:200])
+        elif obj is not None and 'operand' in case and kind == 'int' and case['op'] in dict(INT_BIN):
+            f = dict(INT_BIN)[case['op']]
+            res, exc = run_op(f, case['operand'][1], obj) if case.get('reflected') else run_op(f, obj, case['operand'][1])
+            print('operation now:', repr(res) if exc is None else type(exc).__name__ + ': ' + str(exc)[:200])
+    elif part == 'd':
+        tree = case['tree']
+        cls = getattr(univ, case['type'])
+        if 'size' in case:
+            T = cls(componentType=univ.Integer(), subtypeSpec=C.ConstraintsIntersection(st.to_pyasn1(tree)))
+            v = T.clone()
+            v.extend([i % 3 for i in range(case['size'])]) if case['size'] else v.clear()
+            x = ('map', [(('int', i), ('int', i % 3)) for i in range(case['size'])])
+        else:
+            comps = namedtype.NamedTypes(namedtype.OptionalNamedType('a', univ.Integer()),
+                                         namedtype.OptionalNamedType('b', univ.OctetString()),
+                                         namedtype.OptionalNamedType('c', char.UTF8String()))
+            T = cls(componentType=comps, subtypeSpec=C.ConstraintsIntersection(st.to_pyasn1(tree)))
+            x = case['value']
+            v = T.clone(); v.clear()
+            for k, val in x[1]:
+                v[k[1]] = val[1]
+        print('set theory: member =', st.member(tree, None, x))
+        for name, enc in (('ber', ber_enc), ('cer', cer_enc), ('der', der_enc)):
+            res, exc = run_op(enc.encode, v)
+            print('   %s encode now: %s' % (name, res.hex() if exc is None else type(exc).__name__ + ': ' + str(exc)[:120]))
+        if 'size' not in case:
+            for k in FIELDS_ALL:
+                v.getComponentByName(k)
+            res, exc = run_op(ber_enc.encode, v)
+            print('   ber encode after reading every component: %s' % (res.hex() if exc is None else type(exc).__name__))
+        if 'substrate' in case:
+            res, exc = run_op(lambda: ber_dec.decode(bytes.fromhex(case['substrate']), asn1Spec=T)[0])
+            print('   decode now: %s' % ('%d elements' % len(res) if exc is None else type(exc).__name__))
+        print('model:', core.coq_show(IMPORTS, 'ceval (CAnd [%s]) None %s' % (st.to_coq(tree), st.cval_coq(x))))
     return 0
 
 
 def _retuple(x):
-    """JSON turns tuples into lists; the syntax of settheory.py is positional, so rebuild tuples for nodes"""
+    """replays written before core kept tuples: rebuild tuples for the nodes of settheory.py's syntax"""
+    if isinstance(x, dict):
+        return {k: _retuple(v) for k, v in x.items()}
+    if isinstance(x, tuple):
+        return tuple(_retuple(e) for e in x)
     if isinstance(x, list):
         if x and isinstance(x[0], str) and x[0] in ('single', 'contained', 'range', 'size', 'alpha', 'present', 'absent',
                                                     'with', 'inner', 'and', 'or', 'excl', 'int', 'bytes', 'text', 'oid',
